@@ -3,7 +3,7 @@ import collections
 import contextlib
 import signal
 
-from vlib import basic
+from vlib import basic, translated
 
 LEVEL = 'proof'
 RULE = ('a case is one history: a list of key-down events sent through the input queue (so the buffer-full check '
@@ -17,9 +17,16 @@ EXPLANATION = ('theorems (PcbV.Props.C37): fifo_refinement (all histories of pre
                '(every reachable state: slots head..tail hold the waiting keys, pointer bytes as PEEKed), '
                'pointer_poke_keeps_slots, clear_poke_empties, counterexamples for the unrepaired ring_set_boundaries; '
                'correspondence: every history is run on the real interpreter and on the compiled Lean model and all '
-               'INKEY$/PEEK results are compared; oracle: an independent 16-slot BIOS ring / deque reference')
+               'INKEY$/PEEK results are compared; oracle: an independent 16-slot BIOS ring / deque reference'
+               '; source tie: KeyboardBuffer._ring_index, length, start, stop and the ring-full test of append are '
+               'translated mechanically from the current Python AST (PcbV.Gen.Translated.kb*, gen/py2lean.py), '
+               'proved equal to the model at ring length 16 (translated_kbRingIndex_eq, translated_kbLength_eq, '
+               'translated_kbStart_eq, translated_kbStop_eq, translated_kbFull_eq) and compared with a real '
+               'KeyboardBuffer (vlib/translated.py)')
 TRUSTED_BASE = ['model PcbV.Model.KeyBuf is a hand transcription of keyboard.py:KeyboardBuffer, the append/getc path of '
-                'Keyboard and machine.py:Memory._get/_set_low_memory for 1050..1085']
+                'Keyboard and machine.py:Memory._get/_set_low_memory for 1050..1085',
+                'translator gen/py2lean.py + PcbV.PyInt (Python int semantics in Lean), validated by '
+                'vlib/translated.py against the real functions; it covers the listed functions only']
 ASSUMPTIONS = ['no function-key (F1..F12) keystrokes: their macro expansion in Keyboard._read_kybd_byte is outside the model',
                'no input stream attached (input_streams=None), no KEY/ON KEY traps enabled, codepage 437',
                'EventQueues.tick is set to 0 on the session object so that INKEY$ does not sleep 6 ms per call']
@@ -633,6 +640,7 @@ def line_input_scenarios(ctx, n):
 
 
 def run(ctx):
+    translated.check_keybuf(ctx)
     rng = ctx.rng
     probe = Impl()
     cp = probe.to_bytes
